@@ -20,6 +20,7 @@ import (
 	"fmt"
 	"os"
 	"reflect"
+	"runtime"
 	"sort"
 	"strconv"
 	"strings"
@@ -1076,6 +1077,9 @@ func main() {
 			rep.Fail("property", "RequestQueue:"+name+"-"+o.String(), "the "+name+" part of the harness did not complete: an operation of the implementation never returned ("+vh.Clip(o.Panic, 200)+")", nil)
 		}
 	}
+	phase("blocked-consumers", 2*time.Minute, func() { blockedConsumers(env, rep) })
+	phase("fifo-wake", time.Minute, func() { fifoWake(env, rep) })
+	phase("nil-stress", 2*time.Minute, func() { nilStress(env, rep) })
 	sequential(env, rep, rng.Fork()) // every call inside is under its own watchdog
 	phase("concurrent", deadline/2, func() { concurrent(env, rep, rng.Fork()) })
 	phase("timed", time.Minute, func() { timed(env, rep) })
@@ -1329,4 +1333,291 @@ func listN(n int, puts []int) string {
 		xs = append(xs, strconv.Itoa(x))
 	}
 	return strings.Join(xs, ",")
+}
+
+// ---------------------------------------------------------------- a blocking Get never comes back empty-handed
+
+type qAPI struct {
+	name string
+	get  func() interface{}
+	put  func(v interface{}) bool
+	size func() int
+}
+
+// newAPI: mode 0/1 = Put / PutForce (queue 1 of the double queue), 2/3 = Put2 / PutForce2
+func newAPI(dbl bool, capacity, mode int) qAPI {
+	if dbl {
+		d := queue.NewRequestDoubleQueue(capacity, capacity)
+		put := []func(interface{}) bool{d.Put1, d.PutForce1, d.Put2, d.PutForce2}[mode%4]
+		return qAPI{"RequestDoubleQueue", d.Get, put, d.Size}
+	}
+	q := queue.NewRequestQueue(capacity)
+	put := []func(interface{}) bool{q.Put, q.PutForce}[mode%2]
+	return qAPI{"RequestQueue", q.Get, put, q.Size}
+}
+
+// blockedConsumers: k consumers blocked in Get() before any producer exists, then j ≤ k puts back to
+// back: exactly j consumers return, each with a distinct element that was put, none nil; with j < k the
+// others are still blocked (and are released afterwards).  Between the puts the producer optionally
+// yields, and GOMAXPROCS is varied, so that different interleavings of the woken consumers occur.
+func blockedConsumers(env *vh.Env, rep *vh.Report) {
+	rounds := 200
+	if env.Thorough {
+		rounds = 2000
+	}
+	old := runtime.GOMAXPROCS(0)
+	defer runtime.GOMAXPROCS(old)
+	rng := vh.NewRng(env.Seed ^ 0xb10c)
+	for r := 0; r < rounds; r++ {
+		dbl := r%2 == 1
+		k := 2 + rng.Intn(4)
+		j := k
+		if r%3 == 0 {
+			j = 1 + rng.Intn(k-1)
+		}
+		procs := []int{1, 2, 4, old}[rng.Intn(4)]
+		yield := rng.Intn(3)
+		runtime.GOMAXPROCS(procs)
+		api := newAPI(dbl, 16, rng.Intn(4))
+		results := make(chan interface{}, k+1)
+		for c := 0; c < k; c++ {
+			go func() { results <- api.get() }()
+		}
+		time.Sleep(2 * time.Millisecond) // the consumers are in Wait()
+		for i := 1; i <= j; i++ {
+			api.put(100 + i)
+			if yield == 1 {
+				runtime.Gosched()
+			}
+		}
+		var got []int
+		bad := ""
+		seen := map[int]bool{}
+		deadline := time.After(2 * time.Second)
+	collect:
+		for len(got) < j {
+			select {
+			case v := <-results:
+				x := unelem(v)
+				got = append(got, x)
+				switch {
+				case v == nil:
+					bad = "a blocking Get() returned nil although no nil element was put"
+				case x < 101 || x > 100+j:
+					bad = fmt.Sprintf("Get() returned %d, which was never put", x)
+				case seen[x]:
+					bad = fmt.Sprintf("element %d was delivered twice", x)
+				}
+				seen[x] = true
+				if bad != "" {
+					break collect
+				}
+			case <-deadline:
+				bad = fmt.Sprintf("only %d of %d consumers returned within 2 s after %d puts (Size() = %d)", len(got), j, j, api.size())
+				break collect
+			}
+		}
+		if bad == "" && j < k {
+			select {
+			case v := <-results:
+				got = append(got, unelem(v))
+				if v == nil {
+					bad = "a blocking Get() returned nil although no nil element was put"
+				} else {
+					bad = fmt.Sprintf("more consumers returned (%d) than elements were put (%d)", len(got), j)
+				}
+			case <-time.After(20 * time.Millisecond):
+			}
+		}
+		for i := j + 1; i <= k+1; i++ { // release whoever is still blocked
+			api.put(100 + i)
+		}
+		runtime.GOMAXPROCS(old)
+		rep.Case(fmt.Sprintf("blocked-consumers %s k=%d j=%d procs=%d yield=%d", api.name, k, j, procs, yield), true)
+		rep.Count("blocked-consumers:rounds")
+		if j < k {
+			rep.Count("blocked-consumers:fewer-puts-than-waiters")
+		}
+		if bad != "" {
+			key := api.name + ".Get:returned-nothing"
+			switch {
+			case strings.Contains(bad, "only"):
+				key = api.name + ".Get:stranded-consumer"
+			case !strings.Contains(bad, "nil"):
+				key = api.name + ".Get:not-exactly-once"
+			}
+			rep.Fail("property", key, fmt.Sprintf("%d consumers blocked in %s.Get(), then %d puts back to back: %s (returned so far %v)", k, api.name, j, bad, got),
+				map[string]interface{}{"type": api.name, "consumers": k, "puts": j, "gomaxprocs": procs, "returned": got,
+					"how": "start k goroutines calling Get() on an empty queue, wait 2 ms, put j elements without pause, collect the returns"})
+			return
+		}
+	}
+}
+
+// nilStress: consumers loop Get() against one producer for a fixed number of elements; no nil element
+// is ever put, so no Get may return nil, and every element comes out exactly once.
+func nilStress(env *vh.Env, rep *vh.Report) {
+	n := 20000
+	if env.Thorough {
+		n = 200000
+	}
+	for _, dbl := range []bool{false, true} {
+		for _, mode := range []int{0, 1} {
+			api := newAPI(dbl, 0, mode)
+			const consumers = 6
+			var nils, dups int64
+			seen := make([]int32, n+1)
+			var wg sync.WaitGroup
+			var taken int64
+			for c := 0; c < consumers; c++ {
+				wg.Add(1)
+				go func() {
+					defer wg.Done()
+					for {
+						v := api.get()
+						if v == nil {
+							if atomic.AddInt64(&nils, 1) > 100000 {
+								return
+							}
+							continue
+						}
+						x := unelem(v)
+						if x == stopPill {
+							return
+						}
+						if x >= 1 && x <= n && atomic.AddInt32(&seen[x], 1) > 1 {
+							atomic.AddInt64(&dups, 1)
+						}
+						atomic.AddInt64(&taken, 1)
+					}
+				}()
+			}
+			time.Sleep(2 * time.Millisecond)
+			for i := 1; i <= n; i++ {
+				api.put(i)
+				runtime.Gosched() // a slow producer: the queue is empty most of the time, consumers wait and are woken together
+			}
+			for c := 0; c < consumers; c++ {
+				api.put(stopPill)
+			}
+			fin := make(chan struct{})
+			go func() { wg.Wait(); close(fin) }()
+			hung := false
+			select {
+			case <-fin:
+			case <-time.After(10 * time.Second):
+				hung = true
+			}
+			rep.Case(fmt.Sprintf("nil-stress %s mode=%d", api.name, mode), true)
+			rep.Count("nil-stress:runs")
+			replay := map[string]interface{}{"type": api.name, "elements": n, "consumers": consumers, "nil_returns": atomic.LoadInt64(&nils),
+				"duplicates": atomic.LoadInt64(&dups), "delivered": atomic.LoadInt64(&taken),
+				"how": "6 goroutines loop Get(); one producer puts 1..n (never nil) and then 6 stop elements; count nil returns, duplicates, deliveries"}
+			switch {
+			case atomic.LoadInt64(&nils) > 0:
+				rep.Fail("property", api.name+".Get:returned-nothing",
+					fmt.Sprintf("%s: %d blocking Get() calls returned nil although only the elements 1..%d were put", api.name, atomic.LoadInt64(&nils), n), replay)
+				return
+			case hung:
+				rep.Fail("property", api.name+".Get:stranded-consumer", "consumers did not finish within 10 s after the producer's last put", replay)
+				return
+			case atomic.LoadInt64(&dups) > 0 || atomic.LoadInt64(&taken) != int64(n):
+				rep.Fail("property", api.name+".Get:not-exactly-once",
+					fmt.Sprintf("%s: %d elements put, %d delivered, %d delivered twice", api.name, n, atomic.LoadInt64(&taken), atomic.LoadInt64(&dups)), replay)
+				return
+			}
+		}
+	}
+}
+
+// fifoWake: a deterministic schedule for "the woken consumer gives up the lock between the wait loop and
+// the removal".  k consumers wait in Get() on a queue of capacity 1.  The harness holds the queue's mutex
+// (found by reflection), parks one producer (Put x) and two slow refused puts (their Failed callback
+// sleeps 3 ms *under the lock*, so that everybody queued behind them has waited > 1 ms) and releases the
+// mutex in FIFO mode.  The woken consumers then receive the lock by direct hand-off, one after the
+// other, with no barging in between.  On a queue whose Get removes the element in the critical section
+// in which it saw it, exactly one consumer returns x and the others go back to sleep; a Get that drops
+// the lock before removing lets a second consumer through, which comes back with nil.
+func fifoWake(env *vh.Env, rep *vh.Report) {
+	reps := 6
+	if env.Thorough {
+		reps = 60
+	}
+	for r := 0; r < reps; r++ {
+		dbl := r%2 == 1
+		k := 2 + r%3
+		var api qAPI
+		var mu *sync.Mutex
+		slow := func(interface{}) { time.Sleep(3 * time.Millisecond) }
+		var release func()
+		if dbl {
+			d := queue.NewRequestDoubleQueue(1, 1)
+			if !setDoubleCB(d, slow, func(interface{}) {}) {
+				continue
+			}
+			api = qAPI{"RequestDoubleQueue", d.Get, d.Put1, d.Size}
+			mu = condMutex(d)
+			release = func() { d.SetCapacity(0, 0) }
+		} else {
+			q := queue.NewRequestQueue(1)
+			q.Failed = slow
+			api = qAPI{"RequestQueue", q.Get, q.Put, q.Size}
+			mu = condMutex(q)
+			release = func() { q.SetCapacity(0) }
+		}
+		if mu == nil {
+			rep.Fail("correspondence", api.name+":cond-mutex-not-found", "the harness found no *sync.Cond field", nil)
+			return
+		}
+		results := make(chan interface{}, k+1)
+		for c := 0; c < k; c++ {
+			go func() { results <- api.get() }()
+		}
+		time.Sleep(3 * time.Millisecond) // consumers are in Wait()
+		mu.Lock()
+		go api.put(777)
+		time.Sleep(1500 * time.Microsecond)
+		go api.put(901) // refused (capacity 1): Failed sleeps under the lock
+		time.Sleep(1500 * time.Microsecond)
+		go api.put(902)
+		time.Sleep(1500 * time.Microsecond)
+		fifoRelease(mu)
+		var got []int
+		timeout := time.After(300 * time.Millisecond)
+	collect:
+		for len(got) < k {
+			select {
+			case v := <-results:
+				got = append(got, unelem(v))
+			case <-timeout:
+				break collect
+			}
+		}
+		// let the remaining consumers go
+		vh.GuardTimeout(2*time.Second, func() {
+			release()
+			for i := 0; i < k; i++ {
+				api.put(1000 + i)
+			}
+		})
+		rep.Case(fmt.Sprintf("fifo-wake %s k=%d", api.name, k), true)
+		rep.Count("fifo-wake:runs")
+		bad := ""
+		switch {
+		case len(got) == 0:
+			bad = "no consumer returned within 300 ms although an element was put"
+		case len(got) > 1 || got[0] != 777:
+			bad = fmt.Sprintf("the consumers returned %v for the single element 777 (0 = nil)", got)
+		}
+		if bad != "" {
+			key := api.name + ".Get:returned-nothing"
+			if len(got) == 0 {
+				key = api.name + ".Get:stranded-consumer"
+			}
+			rep.Fail("property", key, fmt.Sprintf("%d consumers blocked in %s.Get(), one Put, woken consumers served the lock in FIFO order: %s", k, api.name, bad),
+				map[string]interface{}{"type": api.name, "consumers": k, "returned": got,
+					"how": "capacity 1, Failed callback sleeps 3 ms; k goroutines in Get(); hold the cond's mutex (reflection); park Put(777), Put(901), Put(902); release the mutex in starvation (FIFO) mode; collect the returns for 300 ms"})
+			return
+		}
+	}
 }
